@@ -220,6 +220,7 @@ func checkC16(ctx *Ctx, r *Report) {
 	c10ConstantRefToEnum(ctx, r)
 	c16SecondHunt(ctx, r)
 	c16ThirdHunt(ctx, r)
+	c16FourthHunt(ctx, r)
 	c16DismissalNeedsLostOptions(ctx, r)
 }
 
@@ -944,4 +945,116 @@ func c16ThirdHunt(ctx *Ctx, r *Report) {
 	}
 	r.Check(skips, "skeleton/union-wrapper-branches-are-options", "golang.RawTypes.defaultsForStructRec does not preset the branches of a union wrapper", gfd.Pos(), "the fields of a struct generated from a disjunction are skipped unless an enclosing default names them",
 		"NewStringOrInt64() presets the constant branch (`String: &\"auto\"`): MarshalJSON writes the first branch that is set, so a wrapper whose Int64 branch is set afterwards is still encoded \"auto\"")
+}
+
+// c16FourthHunt — fourth hunt:
+//   - (finding) the branches of a union wrapper go straight to an option typed by the branch: a branch that refers to
+//     a *constant* (`Auto | int`, `Auto: "auto"`) gives an argument "of type Auto", which no language can write. The
+//     branch path of structObjectToBuilder has to ask what the reference resolves to (fieldIsRefToConcrete);
+//   - a field typed by a constant reference gets neither an option nor a constructor constant: structObjectToBuilder
+//     relies on each language's type constructor. TypeScript's (defaultValuesForStructType) skips optional fields, so
+//     its skip has to leave constant references out — or the derivation has to stop relying on it.
+func c16FourthHunt(ctx *Ctx, r *Report) {
+	fn := ctx.LookupMethod("internal/ast", "BuilderGenerator", "structObjectToBuilder")
+	fd, p := ctx.DeclOf(fn)
+	if fd == nil {
+		r.Undecided("anchor lost: BuilderGenerator.structObjectToBuilder")
+		return
+	}
+	info := p.TypesInfo
+	n := 0
+	// (a)
+	var branchVar types.Object
+	ast.Inspect(fd.Body, func(m ast.Node) bool {
+		as, ok := m.(*ast.AssignStmt)
+		if !ok || len(as.Lhs) != 1 || len(as.Rhs) != 1 {
+			return true
+		}
+		if c, ok := ast.Unparen(as.Rhs[0]).(*ast.CallExpr); ok {
+			if f := callee(info, c); f != nil && f.Name() == "IsStructGeneratedFromDisjunction" {
+				if id, ok := as.Lhs[0].(*ast.Ident); ok {
+					branchVar = objOf(info, id)
+				}
+			}
+		}
+		return true
+	})
+	if branchVar == nil {
+		r.Undecided("anchor changed: structObjectToBuilder no longer tells the structs generated from disjunctions apart")
+	} else {
+		ast.Inspect(fd.Body, func(m ast.Node) bool {
+			is, ok := m.(*ast.IfStmt)
+			if !ok {
+				return true
+			}
+			id, ok := ast.Unparen(is.Cond).(*ast.Ident)
+			if !ok || objOf(info, id) != branchVar {
+				return true
+			}
+			asks := false
+			ast.Inspect(is.Body, func(k ast.Node) bool {
+				if c, ok := k.(*ast.CallExpr); ok {
+					if f := callee(info, c); f != nil && (f.Name() == "fieldIsRefToConcrete" || f.Name() == "IsConcreteScalar") {
+						asks = true
+					}
+				}
+				return true
+			})
+			n++
+			r.Check(asks, "derive/union-branch-constant-reference", "structObjectToBuilder branch path handles references to constants", is.Pos(), "the branch path asks whether the branch refers to a constant",
+				"the fields of a union wrapper go straight to structFieldToOption: `Auto: \"auto\"; x: Auto | int` gives AutoOrInt64 the option Auto(Auto ref pkgu.Auto) — an argument typed by a constant; Go: `func (builder *AutoOrInt64Builder) Auto(auto Auto)` — Auto is not a type, the package does not compile")
+			return true
+		})
+	}
+	// (b)
+	skipsConstantRefs := false
+	ast.Inspect(fd.Body, func(m ast.Node) bool {
+		is, ok := m.(*ast.IfStmt)
+		if !ok || !strings.HasSuffix(exprString(is.Cond), "field.Type.IsConstantRef()") {
+			return true
+		}
+		if len(is.Body.List) == 1 {
+			if br, ok := is.Body.List[0].(*ast.BranchStmt); ok && br.Tok == token.CONTINUE {
+				skipsConstantRefs = true
+			}
+		}
+		return true
+	})
+	tfn := ctx.LookupMethod("internal/jennies/typescript", "RawTypes", "defaultValuesForStructType")
+	tfd, tp := ctx.DeclOf(tfn)
+	if tfd == nil {
+		r.Undecided("anchor lost: typescript.RawTypes.defaultValuesForStructType")
+	} else if skipsConstantRefs {
+		tinfo := tp.TypesInfo
+		guards := 0
+		ast.Inspect(tfd.Body, func(m ast.Node) bool {
+			is, ok := m.(*ast.IfStmt)
+			if !ok || !strings.Contains(exprString(is.Cond), ".Required") || !endsInExit(is.Body) {
+				return true
+			}
+			guards++
+			excludes := false
+			ast.Inspect(is.Cond, func(k ast.Node) bool {
+				if c, ok := k.(*ast.CallExpr); ok {
+					if f := callee(tinfo, c); f != nil && f.Name() == "IsConstantRef" {
+						excludes = true
+					}
+				}
+				return true
+			})
+			n++
+			r.Check(excludes, "skeleton/typescript-optional-constant-ref-initialised", "typescript.defaultValuesForStructType skips optional fields", is.Pos(), "except those that refer to a constant, which nothing else sets",
+				"structObjectToBuilder derives nothing for a constant reference and relies on the type's own constructor, while the TypeScript defaults leave every optional field out: `opt?: Kind & \"b\"` has no option, no constructor constant and no initialisation — new MainBuilder().build() lacks opt, which the Go / Python / Java builders set to \"b\"")
+			return true
+		})
+		if guards == 0 {
+			// every field is initialised: nothing to ask
+			n++
+		}
+	} else {
+		// the derivation no longer skips constant references: it covers them itself
+		n++
+	}
+	r.Count("hunted clauses of the derivation (4th hunt)", n)
+	r.Floor("hunted clauses of the derivation (4th hunt)", 2)
 }
